@@ -422,4 +422,238 @@ theorem sim (ops : ValOps V) (cfg : Cfg) (r : IRunner V S X) (sched : ISched V S
           simp only [List.append_assoc, obsEvs_append, obsEvs_intrEvs, List.nil_append] at ih3 ⊢
           rw [ih3, hevs]
 
+/-- the reference run (interrupt sets empty) returns within `n` supersteps on input `x` -/
+def run₀FinishesIn (ops : ValOps V) (r : IRunner V S X) (sched : ISched V S X) (n : Nat) (x : V) : Prop :=
+  match calcNext ops r.base (initChans r.base) [(START, x)] with
+  | .ok (cm, .tasks ts) => finishesIn ops r sched n { cm := cm, tasks := mkTasks [] ts, st := r.initState, stale := [] }
+  | _ => True
+
+theorem resume_equiv_top (ops : ValOps V) (cfg : Cfg) (r : IRunner V S X) (sched : ISched V S X)
+    (hcfg : cfg.fwdStale = false) (hnd : (akeys (initChans r.base)).Nodup)
+    (hq : SecondGetQuiet ops r.base) (hnsr : NoSR r) (hsub : SchedSub sched)
+    (n calls : Nat) (x : V) (hfin : run₀FinishesIn ops r sched n x) (hn : n ≤ r.base.fuel) (hc : n + 1 ≤ calls) :
+    (Out.finalOf (resumeUntilDone ops cfg r sched calls x)).bind Res.final? = (run₀ ops cfg r sched x).res.final? ∧
+    (run₀ ops cfg r sched x).res.final? ≠ none ∧
+    obsEvs (allEvs (resumeUntilDone ops cfg r sched calls x)) = obsEvs (run₀ ops cfg r sched x).evs := by
+  obtain ⟨c, rfl⟩ : ∃ c, calls = c + 1 := ⟨calls - 1, by omega⟩
+  simp only [resumeUntilDone, resumeLoop_succ, run₀, runI]
+  simp only [run₀FinishesIn] at hfin
+  have hplainbase : r.plain.base = r.base := rfl
+  have hplaininit : r.plain.initState = r.initState := rfl
+  simp only [hplainbase, hplaininit]
+  cases hcn : calcNext ops r.base (initChans r.base) [(START, x)] with
+  | error e => simp [histFrom, Out.finalOf, Res.final?, allEvs]
+  | ok p =>
+    obtain ⟨cm, nx⟩ := p
+    cases nx with
+    | result v => simp [histFrom, Out.finalOf, Res.final?, allEvs]
+    | tasks ts =>
+      rw [hcn] at hfin
+      simp only at hfin ⊢
+      have hn0 : n ≠ 0 := by intro h; subst h; simp [finishesIn] at hfin
+      have hplainhit : hitKeys ts r.plain.intBefore = [] := hitKeys_nil_keys ts
+      simp only [hplainhit, List.isEmpty_nil, Bool.not_true, Bool.and_false, Bool.false_eq_true, ite_false]
+      have hf0 : (LoopSt.Fresh ({ cm := cm, tasks := mkTasks [] ts, st := r.initState, stale := [] } : LoopSt V S X)) :=
+        ⟨rfl, mkTasks_fresh ts⟩
+      have hk0 : (LoopSt.KeysOK r ({ cm := cm, tasks := mkTasks [] ts, st := r.initState, stale := [] } : LoopSt V S X)) :=
+        calcNext_keys ops r.base _ _ _ _ hcn
+      split
+      · -- the tasks computed from START hit the interrupt-before list: the first call is only an interrupt
+        obtain ⟨c', rfl⟩ : ∃ c', c = c' + 1 := ⟨c - 1, by omega⟩
+        have hcp : (simpleCP cm ts r.initState : Checkpoint V S X) =
+            ({ cm := cm, tasks := mkTasks [] ts, st := r.initState, stale := [] } : LoopSt V S X).toCP := by
+          simp only [LoopSt.toCP, mkTasks_inputs]
+        obtain ⟨s1, s2, s3⟩ := sim ops cfg r sched hcfg hnd hq hnsr hsub n r.base.fuel r.base.fuel c' _ hfin hn hn
+          (Nat.le_refl _) (by omega) hf0 hk0
+        have hh : ∀ (info0 : Info S X),
+            histFrom ops cfg r sched (c' + 1)
+              { res := .interrupted (simpleCP cm ts r.initState) info0, evs := intrEvs false true info0 } =
+            { res := .interrupted (simpleCP cm ts r.initState) info0, evs := intrEvs false true info0 } ::
+              histFrom ops cfg r sched c' (loopI ops r sched false true r.base.fuel
+                { cm := cm, tasks := mkTasks [] ts, st := r.initState, stale := [] }) := by
+          intro info0
+          conv => lhs; rw [histFrom]
+          simp only [resumeLoop_succ, runI]
+          rw [hcp, restore_toCP cfg r _ hcfg hf0 hk0 hnd]
+        rw [hh]
+        refine ⟨?_, s2, ?_⟩
+        · rw [finalOf_cons_ne _ _ (histFrom_ne_nil _ _ _ _ _ _)]
+          exact s1
+        · simp only [allEvs, List.flatMap_cons, obsEvs_append, obsEvs_intrEvs, List.nil_append] at s3 ⊢
+          exact s3
+      · exact sim ops cfg r sched hcfg hnd hq hnsr hsub n r.base.fuel r.base.fuel c _ hfin hn hn
+          (Nat.le_refl _) (by omega) hf0 hk0
+
+/-! ### tasks created after a resume start fresh -/
+
+/-- no task of these supersteps was handed a nested checkpoint -/
+def StepsFresh (steps : List (List (Key × Bool))) : Prop := ∀ ts ∈ steps, ∀ p ∈ ts, p.2 = false
+
+theorem loopI_steps_fresh (ops : ValOps V) (r : IRunner V S X) (sched : ISched V S X) (isSub hasID : Bool) :
+    ∀ (fuel : Nat) (ls : LoopSt V S X), ls.stale = [] →
+      topSteps (loopI ops r sched isSub hasID fuel ls).evs = [] ∨
+      ∃ rest, topSteps (loopI ops r sched isSub hasID fuel ls).evs = stepTasks r ls :: rest ∧ StepsFresh rest := by
+  intro fuel
+  induction fuel with
+  | zero => intro ls _; left; simp [loopI, topSteps]
+  | succ n ih =>
+    intro ls hst
+    right
+    unfold loopI
+    split
+    · exact ⟨[], by simp [topSteps_stepI], by intro ts h; simp at h⟩
+    · exact ⟨[], by simp [topSteps_stepI], by intro ts h; simp at h⟩
+    · exact ⟨[], by simp [topSteps_append, topSteps_stepI, topSteps_intrEvs], by intro ts h; simp at h⟩
+    · rename_i ls' hnext
+      obtain ⟨cm, ts, dones, st, _, hls', _, _⟩ := finishStep_next ops r ls.stale _ ls' hnext
+      have hst' : ls'.stale = [] := by rw [hls']; exact hst
+      simp only [topSteps_append, topSteps_stepI]
+      refine ⟨_, rfl, ?_⟩
+      rcases ih ls' hst' with h0 | ⟨rest, hr, hfr⟩
+      · rw [h0]; intro ts h; simp at h
+      · rw [hr]
+        intro ts' hts
+        have hts : ts' = stepTasks r ls' ∨ ts' ∈ rest := by simpa using hts
+        rcases hts with rfl | hts
+        · intro p hp
+          rw [stepTasks_eq, hls', hst] at hp
+          simp only [mkTasks, List.map_map, List.mem_map] at hp
+          obtain ⟨q, _, rfl⟩ := hp
+          simp [alookup]
+        · exact hfr ts' hts
+
+theorem runI_steps_fresh (ops : ValOps V) (cfg : Cfg) (r : IRunner V S X) (sched : ISched V S X) (isSub hasID : Bool)
+    (hcfg : cfg.fwdStale = false) :
+    (∀ x, StepsFresh (topSteps (runI ops cfg r sched isSub hasID (.inl x)).evs)) ∧
+    (∀ cp, StepsFresh (topSteps (runI ops cfg r sched isSub hasID (.inr cp)).evs).tail) := by
+  constructor
+  · intro x
+    simp only [runI]
+    split
+    · intro ts h; simp [topSteps] at h
+    · intro ts h; simp [topSteps] at h
+    · rename_i cm ts _
+      split
+      · intro ts h; simp [topSteps_intrEvs] at h
+      · rcases loopI_steps_fresh ops r sched isSub hasID r.base.fuel
+          { cm := cm, tasks := mkTasks [] ts, st := r.initState, stale := [] } rfl with h0 | ⟨rest, hr, hfr⟩
+        · rw [h0]; intro ts h; simp at h
+        · rw [hr]
+          intro ts' hts
+          have hts : ts' = stepTasks r { cm := cm, tasks := mkTasks [] ts, st := r.initState, stale := [] } ∨ ts' ∈ rest := by
+            simpa using hts
+          rcases hts with rfl | hts
+          · intro p hp
+            rw [stepTasks_eq] at hp
+            simp only [mkTasks, List.map_map, List.mem_map] at hp
+            obtain ⟨q, _, rfl⟩ := hp
+            simp [alookup]
+          · exact hfr ts' hts
+  · intro cp
+    simp only [runI]
+    rcases loopI_steps_fresh ops r sched isSub hasID r.base.fuel (restore cfg r cp)
+        (by simp [restore, hcfg]) with h0 | ⟨rest, hr, hfr⟩
+    · rw [h0]; intro ts h; simp at h
+    · rw [hr]; exact hfr
+
+/-! ### what the sub-graph / rerun interrupt saves -/
+
+theorem alookup_isSome_iff {α} (k : Key) (l : List (Key × α)) : (alookup k l).isSome ↔ k ∈ l.map (·.1) := by
+  induction l with
+  | nil => simp [alookup]
+  | cons p rest ih =>
+    simp only [alookup, List.map_cons, List.mem_cons]
+    split
+    · rename_i h; simp [beq_iff_eq.1 h]
+    · rename_i h
+      have hne : k ≠ p.1 := fun heq => h (by simp [heq])
+      simp [ih, hne]
+
+theorem stepI_sr_shape (ops : ValOps V) (r : IRunner V S X) (sched : ISched V S X) (ls : LoopSt V S X)
+    (cp : Checkpoint V S X) (info : Info S X) (h : (stepI ops r sched ls).2 = .intr cp info)
+    (hsr : info.subs ≠ [] ∨ info.rerun ≠ []) :
+    cp.subs = info.subs ∧ cp.skipPre = info.subs.map (·.1) ∧ cp.state = info.state ∧
+    (∀ p ∈ cp.inputs, p.2 = ops.zero) ∧
+    (∀ k ∈ cp.inputs.map (·.1), k ∈ info.rerun ∨ k ∈ info.subs.map (·.1)) := by
+  simp only [stepI] at h
+  have hl := coreOut_sr_listed ops r sched ls.cm
+    (runBodies r (runPres r ls.tasks ls.st).1 (runPres r ls.tasks ls.st).2).1
+    (runBodies r (runPres r ls.tasks ls.st).1 (runPres r ls.tasks ls.st).2).2.1
+  have hcore : (stepCore ops r sched ls).2 =
+      coreOut ops r sched ls.cm (runBodies r (runPres r ls.tasks ls.st).1 (runPres r ls.tasks ls.st).2).1
+        (runBodies r (runPres r ls.tasks ls.st).1 (runPres r ls.tasks ls.st).2).2.1 := rfl
+  cases hc : (stepCore ops r sched ls).2 with
+  | done v => rw [hc] at h; simp [finishStep] at h
+  | fail e => rw [hc] at h; simp [finishStep] at h
+  | sr cm restore subs reruns dones st =>
+    rw [hc] at h
+    simp only [finishStep] at h
+    injection h with h1 h2
+    subst h1 h2
+    rw [hcore] at hc
+    refine ⟨rfl, rfl, rfl, ?_, ?_⟩
+    · intro p hp; simp only [List.mem_map] at hp; obtain ⟨k, _, rfl⟩ := hp; rfl
+    · intro k hk
+      have : k ∈ restore := by simpa using hk
+      exact hl cm restore subs reruns dones st hc k this
+  | next cm ts dones st =>
+    rw [hc] at h
+    simp only [finishStep] at h
+    split at h
+    · simp at h
+    · split at h
+      · simp at h
+      · simp at h
+      · injection h with _ h2
+        subst h2
+        simp at hsr
+
+/-- the tasks rebuilt from such a checkpoint: zero input; pre-handler skipped and nested checkpoint
+    handed down exactly for the nested graphs that interrupted -/
+theorem restoreTasks_sr (zero : V) (inputs : List (Key × V)) (subs : List (Key × X))
+    (hz : ∀ p ∈ inputs, p.2 = zero) :
+    ∀ t ∈ restoreTasks inputs (subs.map (·.1)) subs,
+      t.input = zero ∧ (t.skipPre = true ↔ t.key ∈ subs.map (·.1)) ∧ (t.sub.isSome ↔ t.key ∈ subs.map (·.1)) := by
+  intro t ht
+  simp only [restoreTasks, List.mem_map] at ht
+  obtain ⟨p, hp, rfl⟩ := ht
+  refine ⟨hz p hp, ?_, ?_⟩
+  · simp
+  · exact alookup_isSome_iff _ _
+
+/-! ### executable versions of the "returns within n supersteps" hypotheses (for concrete examples) -/
+
+def finishesInB (ops : ValOps V) (r : IRunner V S X) (sched : ISched V S X) : Nat → LoopSt V S X → Bool
+  | 0, _ => false
+  | n + 1, ls =>
+    match (stepI ops r.plain sched ls).2 with
+    | .next ls' => finishesInB ops r sched n ls'
+    | _ => true
+
+theorem finishesIn_of_B (ops : ValOps V) (r : IRunner V S X) (sched : ISched V S X) :
+    ∀ (n : Nat) (ls : LoopSt V S X), finishesInB ops r sched n ls = true → finishesIn ops r sched n ls := by
+  intro n
+  induction n with
+  | zero => intro ls h; simp [finishesInB] at h
+  | succ m ih =>
+    intro ls h
+    simp only [finishesInB] at h
+    simp only [finishesIn]
+    split <;> simp_all
+
+def run₀FinishesInB (ops : ValOps V) (r : IRunner V S X) (sched : ISched V S X) (n : Nat) (x : V) : Bool :=
+  match calcNext ops r.base (initChans r.base) [(START, x)] with
+  | .ok (cm, .tasks ts) => finishesInB ops r sched n { cm := cm, tasks := mkTasks [] ts, st := r.initState, stale := [] }
+  | _ => true
+
+theorem run₀FinishesIn_of_B (ops : ValOps V) (r : IRunner V S X) (sched : ISched V S X) (n : Nat) (x : V)
+    (h : run₀FinishesInB ops r sched n x = true) : run₀FinishesIn ops r sched n x := by
+  simp only [run₀FinishesInB] at h
+  simp only [run₀FinishesIn]
+  split
+  · rename_i cm ts heq
+    rw [heq] at h
+    exact finishesIn_of_B ops r sched n _ h
+  · trivial
+
 end EinoV.Interrupt
